@@ -26,13 +26,22 @@ def run(prop, tier):
         for l in LIN2 + LIN3 + (LIN_THOROUGH if tier == "thorough" else []):
             jobs.append(dict(src=SRC, atomic=a, args=["lin", "-p", p if len(l) < 4 or tier == "quick" else 3, "--"] + list(l)))
     acc = mcsched.run_jobs(prop, tier, jobs)
+    if tier == "thorough":
+        # value semantics for ALL 2^32 operands (add/and/or/xor x 4 base words), real atomics, no scheduler; sim is mutex based: every 16th operand
+        import build
+        for a, stride in (("c11", 1), ("sync", 1), ("sim", 16)):
+            x = build.build_exe("atomic_sweep", "fast", ["harness/atomic_sweep.c"], atomic=a)
+            common.parallel(lambda k: common.run_harness(x, [k, 16, stride], acc, "atomic_sweep[%s] shard %d" % (a, k), timeout=3000, crash_prop=prop), list(range(16)))
+    extra = {}
+    if tier == "thorough" and not acc.viols:
+        extra = mcsched.conformance(acc, [j for j in jobs if j["args"][0] not in ("values", "barrier")])
     cov = mcsched.coverage(acc, "(a) single-threaded: each of the 20 operations on every (word, operand[, new]) combination of a 9-value boundary alphabet "
                                 "(0, +-1, 2, INT_MAX, INT_MIN, INT_MAX-1, 0x55.., 0xAA.. and pointer-width analogues) vs the C expression on a wrapping word; "
                                 "(b) 2-3 real threads x 1-2 operations on one shared word, all interleavings with <= %d preemptions, recorded results + final value "
                                 "checked against every sequential order (brute force); (c) message passing through set/get under the happens-before monitor and "
                                 "full-barrier accounting of set/get; each for c11, sync, sim. non-trivial = executions of (b)/(c) jobs that completed their oracle" % p)
     return common.finish(prop, tier, "model_checking", acc, cov, mcsched.ASSUME + [
-        "'set/get act as full barriers' is decided by accounting: the runtime sees the memory order of every atomic op/fence the call executes; a store->load reordering itself is not simulated"], t0)
+        "'set/get act as full barriers' is decided by accounting: the runtime sees the memory order of every atomic op/fence the call executes; a store->load reordering itself is not simulated"], t0, extra=extra)
 
 
 replay = mcsched.replay
